@@ -47,9 +47,11 @@ VARIABLES st,         \* "init" | "open"
           home,       \* ghost: [Elems -> file the element's bytes were last written to, or <<>>]
           whole,      \* ghost: [Elems -> all bytes of the element were written to home[e] through the API]
           tainted,    \* ghost: files planted, moved or removed by the environment
+          hnd,        \* the one long-lived access handle: <<>> or [e |-> element, f |-> file it has open, or <<>>]
+          dirchg,     \* the library's process-wide "search list changed" flag (hextelt.c: extdir_changed)
           wc, out, hist
-vars == <<st, createdir, search, present, fs, elems, truth, home, whole, tainted, wc, out, hist>>
-view == <<st, createdir, search, present, fs, elems, home, whole, tainted, wc % 2>>
+vars == <<st, createdir, search, present, fs, elems, truth, home, whole, tainted, hnd, dirchg, wc, out, hist>>
+view == <<st, createdir, search, present, fs, elems, home, whole, tainted, hnd, dirchg, wc % 2>>
 
 Log(op, args, o) == /\ out' = o
                     /\ hist' = IF KeepHist THEN Append(hist, [op |-> op, args |-> args, out |-> o])
@@ -72,7 +74,7 @@ NoElem == [kind |-> "none"]
 Init == /\ st = "init" /\ createdir = "none" /\ search = <<>> /\ present = {} /\ fs = [f \in Files |-> <<>>]
         /\ elems = [e \in Elems |-> NoElem] /\ truth = [e \in Elems |-> <<>>] /\ home = [e \in Elems |-> <<>>]
         /\ whole = [e \in Elems |-> FALSE]
-        /\ tainted = {} /\ wc = 0 /\ out = [ret |-> 0] /\ hist = <<>>
+        /\ tainted = {} /\ hnd = <<>> /\ dirchg = FALSE /\ wc = 0 /\ out = [ret |-> 0] /\ hist = <<>>
 
 \* ---- the rules ----
 CreateDirOf(form) == IF form = "abs" THEN "a" ELSE IF createdir # "none" THEN createdir ELSE "c"
@@ -100,32 +102,33 @@ ReadOut(v) == IF v = <<FAIL>> THEN [ret |-> FAIL] ELSE [ret |-> Len(v), data |->
 \* ---- actions ----
 Setup == /\ st = "init" /\ st' = "open"
          /\ Log("Setup", [a |-> 0], [ret |-> 0])
-         /\ UNCHANGED <<createdir, search, present, fs, elems, truth, home, whole, tainted, wc>>
+         /\ UNCHANGED <<createdir, search, present, fs, elems, truth, home, whole, tainted, hnd, dirchg, wc>>
 
 SetCreateDir(d) ==
     /\ st = "open" /\ d \in {"none", "a", "b"} /\ d # createdir
     /\ createdir' = d
     /\ Log("SetCreateDir", [dir |-> d], [ret |-> 0])
-    /\ UNCHANGED <<st, search, present, fs, elems, truth, home, whole, tainted, wc>>
+    /\ UNCHANGED <<st, search, present, fs, elems, truth, home, whole, tainted, hnd, dirchg, wc>>
 
 SetSearch(s) ==
     /\ st = "open" /\ s \in SearchLists /\ s # search
     /\ search' = s
     /\ Log("SetSearch", [dirs |-> s], [ret |-> 0])
-    /\ UNCHANGED <<st, createdir, present, fs, elems, truth, home, whole, tainted, wc>>
+    /\ dirchg' = TRUE
+    /\ UNCHANGED <<st, createdir, present, fs, elems, truth, home, whole, tainted, hnd, wc>>
 
 PutPlain(e, n) ==
-    /\ st = "open" /\ elems[e].kind = "none"
+    /\ st = "open" /\ hnd = <<>> /\ elems[e].kind = "none"
     /\ LET d == Payload(wc + 1, n) IN
        /\ elems' = [elems EXCEPT ![e] = [kind |-> "plain", data |-> d]]
        /\ truth' = [truth EXCEPT ![e] = d]
        /\ Log("PutPlain", [e |-> e, data |-> d], [ret |-> n])
     /\ wc' = wc + 1
-    /\ UNCHANGED <<st, createdir, search, present, fs, home, whole, tainted>>
+    /\ UNCHANGED <<st, createdir, search, present, fs, home, whole, tainted, hnd, dirchg>>
 
 \* HXcreate on a new tag/ref, then the payload is written through the returned handle
 Create(e, nm, form, off, n) ==
-    /\ st = "open" /\ elems[e].kind = "none"
+    /\ st = "open" /\ hnd = <<>> /\ elems[e].kind = "none"
     /\ LET d == Payload(wc + 1, n)  f == <<CreateDirOf(form), nm>> IN
        /\ present' = present \cup {f}
        /\ fs' = [fs EXCEPT ![f] = WriteAt(Cont(f), off, d)]
@@ -135,11 +138,12 @@ Create(e, nm, form, off, n) ==
        /\ truth' = Retruth(elems', home', fs', f, truth)
        /\ Log("Create", [e |-> e, name |-> nm, form |-> form, off |-> off, data |-> d], [ret |-> n])
     /\ wc' = wc + 1
-    /\ UNCHANGED <<st, createdir, search, tainted>>
+    /\ dirchg' = FALSE
+    /\ UNCHANGED <<st, createdir, search, tainted, hnd>>
 
 \* HXcreate on an element that already holds data: the data moves to the external file
 Promote(e, nm, form, off) ==
-    /\ st = "open" /\ elems[e].kind = "plain"
+    /\ st = "open" /\ hnd = <<>> /\ elems[e].kind = "plain"
     /\ LET d == elems[e].data  f == <<CreateDirOf(form), nm>> IN
        /\ present' = present \cup {f}
        /\ fs' = [fs EXCEPT ![f] = WriteAt(Cont(f), off, d)]
@@ -148,17 +152,19 @@ Promote(e, nm, form, off) ==
        /\ whole' = [whole EXCEPT ![e] = TRUE]
        /\ truth' = Retruth(elems', home', fs', f, truth)
        /\ Log("Promote", [e |-> e, name |-> nm, form |-> form, off |-> off], [ret |-> 0])
-    /\ UNCHANGED <<st, createdir, search, tainted, wc>>
+    /\ dirchg' = FALSE
+    /\ UNCHANGED <<st, createdir, search, tainted, hnd, wc>>
 
 Read(e) ==
-    /\ st = "open" /\ elems[e].kind # "none"
+    /\ st = "open" /\ hnd = <<>> /\ elems[e].kind # "none"
     /\ LET v == ReadVal(e) IN
        Log("Read", [e |-> e], ReadOut(v))
-    /\ UNCHANGED <<st, createdir, search, present, fs, elems, truth, home, whole, tainted, wc>>
+    /\ dirchg' = IF elems[e].kind = "ext" /\ Resolve(elems[e].name, elems[e].form) # "none" THEN FALSE ELSE dirchg
+    /\ UNCHANGED <<st, createdir, search, present, fs, elems, truth, home, whole, tainted, hnd, wc>>
 
 \* Hstartwrite; Hseek(pos); Hwrite(n bytes) inside the element; Hendaccess
 Overwrite(e, pos, n) ==
-    /\ st = "open" /\ elems[e].kind = "ext" /\ pos + n <= elems[e].len
+    /\ st = "open" /\ hnd = <<>> /\ elems[e].kind = "ext" /\ pos + n <= elems[e].len
     /\ LET el == elems[e]  d == Payload(wc + 1, n)  dir == Resolve(el.name, el.form) IN
        IF dir = "none"
        THEN /\ Log("Overwrite", [e |-> e, pos |-> pos, data |-> d], [ret |-> FAIL])
@@ -170,47 +176,94 @@ Overwrite(e, pos, n) ==
             /\ truth' = Retruth(elems, home', fs', f, truth)
             /\ Log("Overwrite", [e |-> e, pos |-> pos, data |-> d], [ret |-> n])
     /\ wc' = wc + 1
+    /\ dirchg' = IF Resolve(elems[e].name, elems[e].form) # "none" THEN FALSE ELSE dirchg
+    /\ UNCHANGED <<st, createdir, search, present, elems, tainted, hnd>>
+
+\* ---- one long-lived access handle (Hstartaccess .. Hendaccess spanning several calls) ----
+\* The external file is opened at the first transfer and kept open; a transfer re-locates it only if the search list
+\* was changed (HXsetdir) since a file was last located by ANY element (the flag is the process's, not the handle's).
+Attach(e) ==
+    /\ st = "open" /\ hnd = <<>> /\ elems[e].kind = "ext"
+    /\ hnd' = [e |-> e, f |-> <<>>]
+    /\ Log("Attach", [e |-> e], [ret |-> 0])
+    /\ UNCHANGED <<st, createdir, search, present, fs, elems, truth, home, whole, tainted, dirchg, wc>>
+
+\* the file a transfer through the handle uses: the open one, or -- if none is open or the list changed -- the rules' choice
+HFile == IF hnd.f # <<>> /\ ~dirchg THEN hnd.f
+         ELSE LET el == elems[hnd.e]  d == Resolve(el.name, el.form) IN IF d = "none" THEN <<>> ELSE <<d, el.name>>
+
+\* Hseek(0); Hread(whole element)
+HRead ==
+    /\ st = "open" /\ hnd # <<>>
+    /\ LET el == elems[hnd.e]  f == HFile IN
+       /\ hnd' = [hnd EXCEPT !.f = f]
+       /\ dirchg' = IF f = <<>> THEN dirchg ELSE FALSE
+       /\ Log("HRead", [a |-> 0], IF f # <<>> /\ Len(fs[f]) >= el.off + el.len
+                                   THEN ReadOut(SubSeq(fs[f], el.off + 1, el.off + el.len)) ELSE [ret |-> FAIL])
+    /\ UNCHANGED <<st, createdir, search, present, fs, elems, truth, home, whole, tainted, wc>>
+
+\* Hseek(pos); Hwrite(n bytes) inside the element
+HWrite(pos, n) ==
+    /\ st = "open" /\ hnd # <<>> /\ pos + n <= elems[hnd.e].len
+    /\ LET e == hnd.e  el == elems[e]  d == Payload(wc + 1, n)  f == HFile IN
+       /\ hnd' = [hnd EXCEPT !.f = f]
+       /\ dirchg' = IF f = <<>> THEN dirchg ELSE FALSE
+       /\ IF f = <<>>
+          THEN /\ Log("HWrite", [pos |-> pos, data |-> d], [ret |-> FAIL])
+               /\ UNCHANGED <<fs, truth, home, whole>>
+          ELSE /\ fs' = [fs EXCEPT ![f] = WriteAt(fs[f], el.off + pos, d)]
+               /\ home' = [home EXCEPT ![e] = f]
+               /\ whole' = [whole EXCEPT ![e] = IF f = home[e] THEN whole[e] ELSE (pos = 0 /\ n = el.len)]
+               /\ truth' = Retruth(elems, home', fs', f, truth)
+               /\ Log("HWrite", [pos |-> pos, data |-> d], [ret |-> n])
+    /\ wc' = wc + 1
     /\ UNCHANGED <<st, createdir, search, present, elems, tainted>>
+
+Detach ==
+    /\ st = "open" /\ hnd # <<>>
+    /\ hnd' = <<>>
+    /\ Log("Detach", [a |-> 0], [ret |-> 0])
+    /\ UNCHANGED <<st, createdir, search, present, fs, elems, truth, home, whole, tainted, dirchg, wc>>
 
 \* ---- the environment ----
 Move(nm, from, to) ==
-    /\ st = "open" /\ <<from, nm>> \in present /\ <<to, nm>> \notin present /\ from # to
+    /\ st = "open" /\ hnd = <<>> /\ <<from, nm>> \in present /\ <<to, nm>> \notin present /\ from # to
     /\ present' = (present \ {<<from, nm>>}) \cup {<<to, nm>>}
     /\ fs' = [fs EXCEPT ![<<to, nm>>] = fs[<<from, nm>>], ![<<from, nm>>] = <<>>]
     /\ tainted' = tainted \cup {<<from, nm>>, <<to, nm>>}
     /\ Log("Move", [name |-> nm, from |-> from, to |-> to], [ret |-> 0])
-    /\ UNCHANGED <<st, createdir, search, elems, truth, home, whole, wc>>
+    /\ UNCHANGED <<st, createdir, search, elems, truth, home, whole, hnd, dirchg, wc>>
 
 Plant(nm, d, n) ==
-    /\ st = "open" /\ <<d, nm>> \notin present
+    /\ st = "open" /\ hnd = <<>> /\ <<d, nm>> \notin present
     /\ present' = present \cup {<<d, nm>>}
     /\ fs' = [fs EXCEPT ![<<d, nm>>] = Payload(wc + 1, n)]
     /\ tainted' = tainted \cup {<<d, nm>>}
     /\ Log("Plant", [name |-> nm, dir |-> d, data |-> Payload(wc + 1, n)], [ret |-> 0])
     /\ wc' = wc + 1
-    /\ UNCHANGED <<st, createdir, search, elems, truth, home, whole>>
+    /\ UNCHANGED <<st, createdir, search, elems, truth, home, whole, hnd, dirchg>>
 
 Remove(nm, d) ==
-    /\ st = "open" /\ <<d, nm>> \in present
+    /\ st = "open" /\ hnd = <<>> /\ <<d, nm>> \in present
     /\ present' = present \ {<<d, nm>>}
     /\ fs' = [fs EXCEPT ![<<d, nm>>] = <<>>]
     /\ tainted' = tainted \cup {<<d, nm>>}
     /\ Log("Remove", [name |-> nm, dir |-> d], [ret |-> 0])
-    /\ UNCHANGED <<st, createdir, search, elems, truth, home, whole, wc>>
+    /\ UNCHANGED <<st, createdir, search, elems, truth, home, whole, hnd, dirchg, wc>>
 
 \* Hclose; Hopen(RDWR): the directory settings are the process's, they stay
 Reopen ==
-    /\ st = "open"
+    /\ st = "open" /\ hnd = <<>>
     /\ Log("Reopen", [a |-> 0], [ret |-> 0])
-    /\ UNCHANGED <<st, createdir, search, present, fs, elems, truth, home, whole, tainted, wc>>
+    /\ UNCHANGED <<st, createdir, search, present, fs, elems, truth, home, whole, tainted, hnd, dirchg, wc>>
 
 \* every external file, byte by byte (the audit of a generated behaviour; not part of Next)
 FileSeq == << <<"c", "x">>, <<"c", "y">>, <<"a", "x">>, <<"a", "y">>, <<"b", "x">>, <<"b", "y">> >>
 FilesOut(pres, fsx) == LET S == SelectSeq(FileSeq, LAMBDA f : f \in pres) IN
                        [i \in 1..Len(S) |-> [dir |-> S[i][1], name |-> S[i][2], data |-> fsx[S[i]]]]
-Dump == /\ st = "open"
+Dump == /\ st = "open" /\ hnd = <<>>
         /\ Log("Dump", [a |-> 0], [files |-> FilesOut(present, fs)])
-        /\ UNCHANGED <<st, createdir, search, present, fs, elems, truth, home, whole, tainted, wc>>
+        /\ UNCHANGED <<st, createdir, search, present, fs, elems, truth, home, whole, tainted, hnd, dirchg, wc>>
 
 Next ==
     \/ Setup
@@ -225,6 +278,10 @@ Next ==
     \/ \E nm \in Names, d \in Dirs, n \in {2, 9} : Plant(nm, d, n)
     \/ \E nm \in Names, d \in Dirs : Remove(nm, d)
     \/ Reopen
+    \/ \E e \in Elems : Attach(e)
+    \/ HRead
+    \/ \E pos \in 0..1, n \in 1..2 : HWrite(pos, n)
+    \/ Detach
 
 Spec == Init /\ [][Next]_vars
 Bound == Len(hist) <= MaxOps
